@@ -462,3 +462,41 @@ func simpleMembershipMain() {
 	vrt.SetOutcome(fmt.Sprintf("%d/%d", number, total))
 	_ = config.Dcp{}
 }
+
+// c09_regets: the SAME discovery object asked again after the numbering changed (any (number,total) to any
+// other, including a renumbering at the same group size) must return exactly the partition-rule chunk.
+func init() {
+	scenarios["c09_regets"] = func(raw json.RawMessage) *vrt.Scenario {
+		return &vrt.Scenario{Name: "c09_regets", FreeChoices: true, NoTimerAlt: true, Main: func() {
+			resetGlobals()
+			nvb := []int{64, 128, 1024}[vrt.Choose(3, true, "N")]
+			o := EnvOpts{MembershipType: "dynamic"}
+			o.defaults()
+			cfg := o.config()
+			bus := EventBus.New()
+			disc := stream.NewVBucketDiscovery(nil, cfg, nvb, bus)
+			all := make([]uint16, nvb)
+			for i := range all {
+				all[i] = uint16(i)
+			}
+			var hist []string
+			for step := 0; step < 3; step++ {
+				t := 1 + vrt.Choose(4, true, "total")
+				n := 1 + vrt.Choose(t, true, "number")
+				bus.Publish(helpers.MembershipChangedBusEventName, &membership.Model{MemberNumber: n, TotalMembers: t})
+				vrt.Quiesce()
+				hist = append(hist, fmt.Sprintf("%d/%d", n, t))
+				got := disc.Get()
+				want := helpers.ChunkSlice[uint16](all, t)[n-1]
+				if fmt.Sprint(got) != fmt.Sprint(want) {
+					vrt.Failf("N=%d after %v: Get() returns %d..%d, the partition rule gives %d..%d", nvb, hist, got[0], got[len(got)-1], want[0], want[len(want)-1])
+				}
+				m := disc.GetMetric()
+				if m.MemberNumber != n || m.TotalMembers != t || m.VBucketRangeStart != want[0] || m.VBucketRangeEnd != want[len(want)-1] {
+					vrt.Failf("N=%d after %v: discovery metric %+v", nvb, hist, *m)
+				}
+			}
+			vrt.SetOutcome(fmt.Sprintf("%d %v", nvb, hist))
+		}}
+	}
+}
